@@ -1,5 +1,5 @@
 use quote::{quote, ToTokens};
-use syn::{spanned::Spanned, Expr, Lit, Meta, Type};
+use syn::{spanned::Spanned, Expr, ExprLit, ExprUnary, Lit, Meta, Type, UnOp};
 
 use super::path::path_to_string;
 
@@ -22,14 +22,33 @@ pub(crate) fn meta_2_expr(meta: &Meta) -> syn::Result<Expr> {
 
 #[inline]
 pub(crate) fn auto_adjust_expr(expr: Expr, ty: Option<&Type>) -> Expr {
-    match &expr {
-        Expr::Lit(lit) => {
-            match &lit.lit {
+    // a negative number can arrive as one literal (`-1`) or as the negation of a literal (`-(1)`)
+    let lit = match &expr {
+        Expr::Lit(lit) => Some(&lit.lit),
+        Expr::Unary(ExprUnary {
+            op: UnOp::Neg(_),
+            expr,
+            ..
+        }) => match expr.as_ref() {
+            Expr::Lit(ExprLit {
+                lit: lit @ (Lit::Int(_) | Lit::Float(_)), ..
+            }) => Some(lit),
+            _ => None,
+        },
+        _ => None,
+    };
+
+    match lit {
+        Some(lit) => {
+            match lit {
                 Lit::Int(lit) => {
                     if let Some(Type::Path(ty)) = ty {
                         let ty_string = ty.into_token_stream().to_string();
 
-                        if lit.suffix() == ty_string || INT_TYPES.contains(&ty_string.as_str()) {
+                        // an unsuffixed literal takes any integer type, a suffixed one only its own
+                        if lit.suffix() == ty_string
+                            || (lit.suffix().is_empty() && INT_TYPES.contains(&ty_string.as_str()))
+                        {
                             // don't call into
                             return expr;
                         }
@@ -39,7 +58,10 @@ pub(crate) fn auto_adjust_expr(expr: Expr, ty: Option<&Type>) -> Expr {
                     if let Some(Type::Path(ty)) = ty {
                         let ty_string = ty.into_token_stream().to_string();
 
-                        if lit.suffix() == ty_string || FLOAT_TYPES.contains(&ty_string.as_str()) {
+                        if lit.suffix() == ty_string
+                            || (lit.suffix().is_empty()
+                                && FLOAT_TYPES.contains(&ty_string.as_str()))
+                        {
                             // don't call into
                             return expr;
                         }
@@ -104,6 +126,6 @@ pub(crate) fn auto_adjust_expr(expr: Expr, ty: Option<&Type>) -> Expr {
 
             syn::parse2(quote!(::core::convert::Into::into(#expr))).unwrap()
         },
-        _ => expr,
+        None => expr,
     }
 }
